@@ -32,6 +32,9 @@ struct Out {
     accepted: u32,
     expected_failures: u32,
     possible_failures: u32,
+    /// connections that complete the handshake for sure / that may or may not
+    sure_admits: u32,
+    possible_admits: u32,
     staller_delivered: u32,
     staller_got_traffic: u32,
     detail: String,
@@ -108,6 +111,7 @@ fn stallers(ctx: &mut Ctx) {
     let nstall = 1 + ctx.plan(3) as usize;
     let extra_offs: Vec<usize> = (1..nstall).map(|_| ctx.plan(hb.len() as u64 + if kind == Kind::Req { 0 } else { 1 }) as usize).collect();
     let extra_modes: Vec<Mode> = (1..nstall).map(|_| MODES[ctx.plan(3) as usize]).collect();
+    let accept_error = ctx.idx >= 54 * (hb.len() as u64 + 1) && !ipc && ctx.plan(4) == 0;
     let out = Rc::new(RefCell::new(Out::default()));
     let o2 = out.clone();
     let idx = ctx.idx;
@@ -136,6 +140,7 @@ fn stallers(ctx: &mut Ctx) {
                 while let Some(Ok(_)) = rt::future::or_idle(sock.recv()).await {}
             }
             established = Some(p);
+            o2.borrow_mut().sure_admits += 1;
         }
         // the stallers
         let mut keep = Vec::new();
@@ -150,6 +155,7 @@ fn stallers(ctx: &mut Ctx) {
                 Mode::Stop => {
                     if *o >= hb.len() {
                         // sent everything: this is simply a well-behaved silent peer
+                        o2.borrow_mut().sure_admits += 1;
                     }
                     keep.push(s);
                 }
@@ -160,10 +166,14 @@ fn stallers(ctx: &mut Ctx) {
                         // everything sent, then gone at once: the socket may or may not get its
                         // own greeting and READY out before it notices
                         o2.borrow_mut().possible_failures += 1;
+                        o2.borrow_mut().possible_admits += 1;
                     }
                     s.close();
                 }
                 Mode::Garbage => {
+                    if *o >= hb.len() {
+                        o2.borrow_mut().sure_admits += 1;
+                    }
                     if *o < hb.len() {
                         // garbage usually fails the handshake, but it may also amount to a frame
                         // header announcing more bytes than ever come: then the peer is a silent
@@ -200,6 +210,15 @@ fn stallers(ctx: &mut Ctx) {
                 if single {
                     break;
                 }
+            }
+        }
+        // an accept() call that fails (the kernel does that: ECONNABORTED, EMFILE) must not end the
+        // accept loop: the client after it is still served
+        if accept_error {
+            if rt::rt().net.borrow().inject_accept_error(&world::ep_key(&ep), std::io::ErrorKind::ConnectionAborted) {
+                rt::count("fault_accept_error");
+                o2.borrow_mut().possible_failures += 1;
+                rt::task::idle().await;
             }
         }
         // a well-behaved client connecting AFTER, and the established peer again
@@ -259,6 +278,11 @@ fn stallers(ctx: &mut Ctx) {
         }
         if o.accept_failed < o.expected_failures || o.accept_failed > o.expected_failures + o.possible_failures {
             ctx.violation("accept_failures_misreported", format!("{tag}: {} handshakes were closed before completion and {} were fed garbage, but the monitor got {} AcceptFailed events", o.expected_failures, o.possible_failures, o.accept_failed));
+        }
+        // the peer set: exactly the connections that completed a handshake were announced as peers
+        let admits = o.sure_admits + o.good_total;
+        if o.accepted < admits || o.accepted > admits + o.possible_admits {
+            ctx.violation("peer_set_changed_by_failed_handshake", format!("{tag}: {} connections completed their handshake ({} more may have), but the monitor announced {} accepted peers", admits, o.possible_admits, o.accepted));
         }
         ctx.nontrivial();
         ctx.probe_n("accept_failed_events", o.accept_failed as u64);
